@@ -146,7 +146,14 @@ pub(crate) enum Message {
     #[cfg(feature = "internal")]
     PackageTxs(Request<Option<u64>, Vec<TxEntry>>),
     SubmitLocalTestTx(Request<TransactionView, SubmitTxResult>),
+    /// verif-hooks: run a read-only closure under the pool's read lock
+    #[cfg(feature = "verif-hooks")]
+    VerifRead(Request<VerifReadFn, ()>),
 }
+
+/// verif-hooks: boxed read-only probe executed by the service under the tx-pool read lock
+#[cfg(feature = "verif-hooks")]
+pub type VerifReadFn = std::sync::Mutex<Option<Box<dyn FnOnce(&TxPool) + Send + 'static>>>;
 
 #[derive(Debug, Hash, Eq, PartialEq)]
 pub(crate) enum BlockAssemblerMessage {
@@ -199,6 +206,24 @@ macro_rules! send_notify {
 }
 
 impl TxPoolController {
+    /// verif-hooks: evaluate a read-only function on the pool, ordered with the other requests of
+    /// the service (same channel as `get_all_entry_info`), under the pool's read lock.
+    #[cfg(feature = "verif-hooks")]
+    pub fn verif_read<R: Send + 'static>(
+        &self,
+        f: impl FnOnce(&TxPool) -> R + Send + 'static,
+    ) -> Result<R, AnyError> {
+        let slot = Arc::new(std::sync::Mutex::new(None));
+        let slot2 = Arc::clone(&slot);
+        let boxed: VerifReadFn = std::sync::Mutex::new(Some(Box::new(move |pool: &TxPool| {
+            *slot2.lock().expect("verif slot") = Some(f(pool));
+        })));
+        let done: Result<(), AnyError> = send_message!(self, VerifRead, boxed);
+        done?;
+        let r = slot.lock().expect("verif slot").take();
+        r.ok_or_else(|| ckb_error::InternalErrorKind::System.other("verif_read: probe did not run").into())
+    }
+
     /// Return whether tx-pool service is started
     pub fn service_started(&self) -> bool {
         self.started.load(Ordering::Acquire)
@@ -994,6 +1019,21 @@ async fn process(mut service: TxPoolService, message: Message) {
                 .unwrap_or(PoolTxDetailInfo::with_unknown());
             if let Err(e) = responder.send(tx_details) {
                 error!("responder send get_pool_tx_details failed {:?}", e)
+            };
+        }
+        #[cfg(feature = "verif-hooks")]
+        Message::VerifRead(Request {
+            responder,
+            arguments: f,
+        }) => {
+            {
+                let tx_pool = service.tx_pool.read().await;
+                if let Some(f) = f.lock().expect("verif probe").take() {
+                    f(&tx_pool);
+                }
+            }
+            if let Err(e) = responder.send(()) {
+                error!("Responder sending verif_read failed {:?}", e)
             };
         }
         Message::GetAllEntryInfo(Request { responder, .. }) => {
